@@ -126,7 +126,7 @@ func c13Run(cw *c13World, c c13Case, name string) (sig, msg string, nontrivial b
 	// retries the harness triggered per parked vertex (the head of the parked list is what a trigger pops)
 	myRetry := map[ref.Hash]int{}
 	retryOne := func() error {
-		if pl := book.VerifParkedList(); len(pl) > 0 {
+		if pl := sim.ParkedList(book); len(pl) > 0 {
 			myRetry[pl[0].Hash]++
 		}
 		return sim.GuardT(sim.CallTimeout, func() error { book.VerifRetryOne(bg); return nil })
@@ -136,7 +136,7 @@ func c13Run(cw *c13World, c c13Case, name string) (sig, msg string, nontrivial b
 		inV[v.Hash] = true
 	}
 	have := func() map[ref.Hash]bool {
-		s, err := book.VerifSnapshot()
+		s, err := sim.RawSnapshot(book)
 		m := map[ref.Hash]bool{}
 		if err != nil {
 			return m
@@ -182,7 +182,7 @@ func c13Run(cw *c13World, c c13Case, name string) (sig, msg string, nontrivial b
 				}
 				parked := false
 				for try := 0; try < 4 && !parked; try++ {
-					for _, p := range book.VerifParkedList() {
+					for _, p := range sim.ParkedList(book) {
 						if p.Hash == v.Hash {
 							parked = true
 						}
@@ -208,7 +208,7 @@ func c13Run(cw *c13World, c c13Case, name string) (sig, msg string, nontrivial b
 				}
 			}
 		case "r":
-			pl := book.VerifParkedList()
+			pl := sim.ParkedList(book)
 			if len(pl) == 0 || pl[0].Repeated >= 24 {
 				continue // stay inside the promised bounds
 			}
@@ -257,7 +257,7 @@ func c13Run(cw *c13World, c c13Case, name string) (sig, msg string, nontrivial b
 				nontrivial = true
 				p1 := sim.CloneVertex(&pv)
 				book.AddLeaf(bg, &p1) // accepted as a tentative tip: it is validated when something builds on it
-				for k := 0; k < 4 && len(book.VerifParkedList()) > 0; k++ {
+				for k := 0; k < 4 && len(sim.ParkedList(book)) > 0; k++ {
 					if g := retryOne(); g != nil {
 						return "", "", nontrivial, "retry: " + g.Error()
 					}
@@ -300,18 +300,18 @@ func c13Run(cw *c13World, c c13Case, name string) (sig, msg string, nontrivial b
 	}
 	// retries until the buffer is empty (each parked vertex needs at most |V| rounds; ghosts leave after 25)
 	for k := 0; k < 40*(len(cw.V)+len(forever)+2); k++ {
-		if len(book.VerifParkedList()) == 0 {
+		if len(sim.ParkedList(book)) == 0 {
 			break
 		}
 		if g := retryOne(); g != nil {
 			return "", "", nontrivial, "retry: " + g.Error()
 		}
 	}
-	raw, err := book.VerifSnapshot()
+	raw, err := sim.RawSnapshot(book)
 	if err != nil {
 		return "", "", nontrivial, "snapshot: " + err.Error()
 	}
-	s := sim.MakeSnap(raw, book.VerifParkedList())
+	s := sim.MakeSnap(raw, sim.ParkedList(book))
 	if len(s.Parked) != 0 {
 		return "buffer-not-drained", fmt.Sprintf("%d vertices are still parked after all parents arrived and %d retries", len(s.Parked), 40*(len(cw.V)+len(forever)+2)), nontrivial, ""
 	}
